@@ -503,7 +503,7 @@ def handle (f : List String) : String :=
       let want := sem cfg c
       let dom : String :=
         if !expressible c then " [outside the domain: not expressible]" else if !advertised cfg c then " [outside the domain: not advertised]"
-        else if !withinLimits c then " [outside the domain: over the 4096-byte limit]" else " [in domain]"
+        else if !withinLimits c then " [outside the domain: over a server limit]" else " [in domain]"
       let oracle : String :=
         if !inDomain cfg c then "ok"
         else if outcome ≠ "ok" then s!"fail:not-delivered@{famOf c}:{outcome}"
